@@ -284,8 +284,12 @@ func cleanupConnection(ctx fsm.Context, env ChannelEnvironment, channel internal
 	if otherParty == env.ID() {
 		otherParty = channel.Responder
 	}
+	verifPoint(env, env.ID().String(), "hcleanup.before", datatransfer.ChannelID{ID: channel.TransferID, Initiator: channel.Initiator, Responder: channel.Responder}, 0)
 	env.CleanupChannel(datatransfer.ChannelID{ID: channel.TransferID, Initiator: channel.Initiator, Responder: channel.Responder})
+	verifPoint(env, env.ID().String(), "hcleanup", datatransfer.ChannelID{ID: channel.TransferID, Initiator: channel.Initiator, Responder: channel.Responder}, 0)
 	env.Unprotect(otherParty, datatransfer.ChannelID{ID: channel.TransferID, Initiator: channel.Initiator, Responder: channel.Responder}.String())
+	verifPoint(env, env.ID().String(), "hunprotect", datatransfer.ChannelID{ID: channel.TransferID, Initiator: channel.Initiator, Responder: channel.Responder}, 0)
+	verifPoint(env, env.ID().String(), "htrigger", datatransfer.ChannelID{ID: channel.TransferID, Initiator: channel.Initiator, Responder: channel.Responder}, 0)
 	return ctx.Trigger(datatransfer.CleanupComplete)
 }
 
